@@ -75,7 +75,11 @@ def answer (c : Td.Cfg) (s : Td.St) (ws : List String) : Td.Cfg × Td.St × Stri
     else if v == "dropent" then
       match p.toNat? with
       -- the device information entity [0] is kept, every other listed entity goes with the full cascade
-      | some p => (c, (parseEnts w).foldl (fun s e => if e = [0] then s else Td.dropEntity c s p e) s, "done")
+      | some p => (c, (parseEnts w).foldl (fun s e => Td.removeEntity c s p e) s, "done")
+      | none => (c, s, "bad-op")
+    else if v == "bareent" then
+      match p.toNat? with
+      | some p => (c, { s with reg := Reg.bareEntity s.reg p (parseEnt w) }, "done")
       | none => (c, s, "bad-op")
     else if v == "addent" then
       match p.toNat? with
